@@ -4,4 +4,5 @@ INVARIANT EndsAtLength
 INVARIANT KindWidth
 INVARIANT Classified
 INVARIANT UnitsAreOnVariables
+INVARIANT WellTypedSlots
 CHECK_DEADLOCK FALSE
